@@ -165,6 +165,19 @@ CLAIMED = {
          "linked_hash_table.c, cache.c, fifo_cache.c, lifo_cache.c, lru_cache.c, linked_list.inl. Not covered: element-pointer invalidation by the real "
          "table, allocation failure, programs longer than the bound.",
     technique="CBMC bounded symbolic execution of the real cache / linked-hash-table code over a contract model of the hash table; operations and keys are solver-chosen"),
+ "C17": dict(
+    text="Memory tracer (single-threaded clause): every program of 2 operations and scripted programs of 3-4 operations (acquire, calloc, realloc - from "
+         "NULL, to zero, growing, shrinking, moved or in place at the solver's choice - and release; slot and sizes chosen by the solver) through a tracing "
+         "allocator at each of the three levels, over a wrapped allocator with and without its own calloc/realloc: after every operation the reported byte "
+         "total equals the sum of the requested sizes of the live allocations and the reported count their number (both zero at level NONE and once "
+         "everything is released); every request is forwarded exactly once, calloc memory is zeroed, realloc keeps the contents, live blocks are "
+         "undisturbed; each bookkeeping record (allocation info, stack record, tracer block) is released exactly once and destroy returns the wrapped "
+         "allocator; the tracer's own writes stay inside its records for every backtrace depth.",
+    note="PARTIAL: the 'any number of threads' clause is NOT decided (CBMC rejects interleavings of pointer-sharing threads) and aws_mem_tracer_dump is "
+         "outside the claim. COMPOSITIONAL: the two hash tables are the contract model stubs/hash_model.c (the real table is decided against it in "
+         "C02). Real code executed: source/memtrace.c (except dump) and the aws_mem_* dispatch layer of source/allocator.c. Sizes are 16 bits wide "
+         "placed at bit 0 / 32 / 47 (fully unconstrained 64-bit sizes did not finish on any back end).",
+    technique="CBMC bounded symbolic execution of the real tracer and allocator dispatch over a contract model of the hash table; operations, slots, sizes and realloc behaviour are solver-chosen"),
 }
 NA = {
  "C03": "small-block allocator: its page lookup masks addresses (addr & ~(PAGE-1)) over a pointer-rich heap; from-init histories did not finish symbolic "
@@ -176,8 +189,6 @@ NA = {
  "C12": "XML well-formed traversal: harness with an independent reference parser was built (harness/C12), but CBMC finishes only when the document AND the "
         "callback choices are fully concrete (1-2 s); any symbolic document byte or per-node choice exceeded 240 s, and a fully concrete run is enumeration, "
         "not a solver verdict over inputs, so it is not claimed. Memory safety of the parser on arbitrary short documents is part of C04.",
- "C17": "memory tracer: histories go through aws_hash_table with 1024 slots and lookup3 over pointer bytes; the 4-slot hash-table steps alone need 3-13 minutes "
-        "each (C02) and from-init hash-table use exhausts 12 GB, so a tracer history is out of reach; the thread clause needs interleavings CBMC rejects",
  "C19": "date-time: formatting and the calendar are glibc's strftime/timegm/gmtime_r (outside /repo, no encodable semantics); the library's own parsers "
         "were planned (DESIGN.md C19) but not reached in this round",
 }
